@@ -339,7 +339,7 @@ pub(crate) unsafe fn patch_function(func: *mut u8, patch: &[u8]) {
     mach_vm_protect(
         mach_task_self(),
         remap,
-        0x8,
+        patch.len() as u64,
         0,
         VM_PROT_READ | VM_PROT_WRITE | VM_PROT_COPY,
     );
@@ -351,7 +351,7 @@ pub(crate) unsafe fn patch_function(func: *mut u8, patch: &[u8]) {
     mach_vm_protect(
         mach_task_self(),
         remap,
-        0x8,
+        patch.len() as u64,
         0,
         VM_PROT_READ | VM_PROT_EXECUTE,
     );
